@@ -1,16 +1,35 @@
 """Implementation adapter for C09: wallet key histories answered by the real library (public API only).
 
-Request line:   run <seedhex> <mnemonic words joined by _ | -> <cmd> <cmd> ...
-Answer line:    one token per command (see harness/props/c09.py for the grammar).
+Request line:   run <seedhex | -> <sentence>[+<hex of the UTF-8 password>] <cmd> <cmd> ...
+                <sentence> = the mnemonic words joined by _ , or  hex:<hex of the UTF-8 sentence>  (non-ASCII languages)
+Answer line:    one token per command (see harness/props/c09.py for the grammar); every command that can touch the
+                key table is followed by ~<snapshot of Wallet.keys()> (new rows in full, known rows compact).
 Every wallet lives in its own sqlite file under the cwd (the run directory); no network is touched
 (bitcoinlib.wallets.Service is replaced by a stub that answers "nothing found")."""
 import sys, os, logging, itertools
 sys.path.insert(0, os.path.dirname(os.path.abspath(__file__)))
 from common_impl import serve
 logging.disable(logging.CRITICAL)
+import sqlalchemy.event
+import sqlalchemy.engine
+
+
+@sqlalchemy.event.listens_for(sqlalchemy.engine.Engine, 'connect')
+def _fast_sqlite(dbapi_con, _rec):
+    """durability is of no interest here (the files are still real files and are really re-opened)"""
+    try:
+        cur = dbapi_con.cursor()
+        cur.execute('PRAGMA synchronous=OFF')
+        cur.execute('PRAGMA journal_mode=MEMORY')
+        cur.close()
+    except Exception:
+        pass
+
+
 import bitcoinlib.wallets as bw
-from bitcoinlib.wallets import Wallet, WalletError
+from bitcoinlib.wallets import Wallet, WalletError, wallet_create_or_open
 from bitcoinlib.keys import HDKey, BKeyError
+from bitcoinlib.mnemonic import Mnemonic
 
 
 class _NoService(object):
@@ -36,6 +55,7 @@ class _NoService(object):
 bw.Service = _NoService
 _counter = itertools.count()
 _WT = {'l': 'legacy', 'p': 'p2sh-segwit', 's': 'segwit', '-': None}
+_WTL = {'legacy': 'l', 'p2sh-segwit': 'p', 'segwit': 's'}
 
 
 def opt_int(s):
@@ -44,6 +64,10 @@ def opt_int(s):
 
 def opt_str(s):
     return None if s == '-' else s
+
+
+def opt_bool(s):
+    return None if s == '-' else s == '1'
 
 
 def fmt_key(k):
@@ -63,51 +87,112 @@ def fmt_db(k):
         '-' if k.cosigner_id is None else k.cosigner_id))
 
 
+def fmt_compact(k):
+    """a row already reported in full: the columns that position it (they must never change)"""
+    return '/'.join(str(x) for x in (
+        k.id, k.account_id, '-' if k.change is None else k.change, k.address_index, k.depth, int(bool(k.used)),
+        _WTL.get(k.witness_type, '?'), k.network_name))
+
+
 class Slot(object):
     def __init__(self, w, name, uri):
         self.w, self.name, self.uri = w, name, uri
         self.handed = []      # WalletKey objects handed out in this session (kept alive on purpose)
+        self.seen = set()     # ids of the rows already reported in full
+
+    def snapshot(self):
+        """Wallet.keys() after the command: every row, new ones in full"""
+        try:
+            rows = []
+            for k in self.w.keys():
+                if k.id in self.seen:
+                    rows.append(fmt_compact(k))
+                else:
+                    self.seen.add(k.id)
+                    rows.append(fmt_db(k))
+            return '~' + ';'.join(rows)
+        except Exception as e:
+            return '~CRASH:' + type(e).__name__
 
 
 def leaves(w):
     return [k for k in w.keys(depth=w.key_depth)]
 
 
+def sentence_of(tok):
+    """(sentence, password) of the second request token"""
+    pw = ''
+    if '+' in tok:
+        tok, pwhex = tok.split('+', 1)
+        pw = bytes.fromhex(pwhex).decode('utf8')
+    if tok.startswith('hex:'):
+        return bytes.fromhex(tok[4:]).decode('utf8'), pw
+    return tok.replace('_', ' '), pw
+
+
 def run(toks):
-    seed = bytes.fromhex(toks[1])
-    words = toks[2].replace('_', ' ')
+    seed = bytes.fromhex(toks[1]) if toks[1] != '-' else None
+    words, password = sentence_of(toks[2])
+    if seed is None:      # the request leaves the seed to BIP39: computed by the library from sentence and password
+        seed = Mnemonic().to_seed(words, password)
     slots = {}
     out = []
     uid = next(_counter)
     for cmd in toks[3:]:
         f = cmd.split(':')
         c = f[0]
+        s = None
         try:
             if c == 'C':
                 slot, kind, net, wt, acct = f[1], f[2], f[3], _WT[f[4]], int(f[5])
+                srcname = f[6] if len(f) > 6 and f[6] != '-' else None
+                flags = f[7] if len(f) > 7 else ''
+                given = f[8] if len(f) > 8 else None        # extended key text supplied by the harness
+                lang = f[9] if len(f) > 9 else 'english'
                 name = 'w%d_%s' % (uid, slot)
                 uri = 'sqlite:///' + os.path.join(os.getcwd(), 'c09_%s_%d.sqlite' % (name, os.getpid()))
-                src = slots.get(f[6]) if len(f) > 6 else None
-                if len(f) > 6 and src is None:
+                src = slots.get(srcname) if srcname else None
+                if srcname and src is None:
                     out.append('C=NOSLOT')
                     continue
+                pw = ''
                 if kind == 'seed':
                     key = HDKey.from_seed(seed, network=net, witness_type=wt)
-                elif kind == 'mnem':
-                    key = words
+                elif kind == 'mnem':          # the sentence itself; the password travels as Wallet.create's own argument
+                    key, pw = words, password
+                elif kind == 'mnemk':         # HDKey.from_passphrase object
+                    key = HDKey.from_passphrase(words, password=password, network=net, witness_type=wt)
+                elif kind == 'mnems':         # Mnemonic(language).to_seed -> HDKey.from_seed (any language)
+                    key = HDKey.from_seed(Mnemonic(lang).to_seed(words, password), network=net, witness_type=wt)
                 elif kind == 'xprv':
                     key = src.w.wif(is_private=True)
+                elif kind == 'wkey':          # the WalletKey object of the source wallet's main key
+                    key = src.w.main_key
                 elif kind == 'xpub':
                     key = src.w.public_master(account_id=acct).wif
                 elif kind == 'xpubw':     # the wallet-level export instead of the WalletKey attribute
                     key = src.w.wif(is_private=False, account_id=acct)
                 elif kind == 'axprv':
                     key = src.w.public_master(account_id=acct, as_private=True).wif
+                elif kind in ('xprvs', 'xpubs', 'axprvs'):      # extended key text written by the harness
+                    key = given
+                elif kind in ('xprvk', 'xpubk', 'axprvk'):      # ... parsed into an HDKey object first
+                    key = HDKey(given, network=net, witness_type=wt)
                 else:
                     return 'BADREQ'
-                w = Wallet.create(name, keys=key, network=net, witness_type=wt, account_id=acct, db_uri=uri)
-                slots[slot] = Slot(w, name, uri)
-                out.append('C=ok')
+                kw = dict(keys=key, account_id=acct, db_uri=uri)
+                if 'n' not in flags:
+                    kw['network'] = net
+                if 'w' not in flags:
+                    kw['witness_type'] = wt
+                if pw:
+                    kw['password'] = pw
+                if 'o' in flags:
+                    w = wallet_create_or_open(name, **kw)
+                else:
+                    w = Wallet.create(name, **kw)
+                s = slots[slot] = Slot(w, name, uri)
+                out.append('C=ok' + s.snapshot())
                 continue
             if f[1] not in slots:
                 out.append(c + '=NOSLOT')
@@ -123,7 +208,7 @@ def run(toks):
                 else:
                     ks = w.new_keys(account_id=acct, change=chg, witness_type=wt, network=net, number_of_keys=n)
                 s.handed += ks
-                out.append('K=' + fmt_keys(ks))
+                out.append('K=' + fmt_keys(ks) + s.snapshot())
             elif c == 'G':
                 acct, chg, wt, net, n = opt_int(f[2]), int(f[3]), _WT[f[4]], opt_str(f[5]), int(f[6])
                 if n == 1 and chg == 1:
@@ -135,12 +220,12 @@ def run(toks):
                 else:
                     ks = w.get_keys(account_id=acct, witness_type=wt, network=net, number_of_keys=n, change=chg)
                 s.handed += ks
-                out.append('G=' + fmt_keys(ks))
+                out.append('G=' + fmt_keys(ks) + s.snapshot())
             elif c == 'A':
                 acct, wt, net = opt_int(f[2]), _WT[f[3]], opt_str(f[4])
                 k = w.new_account(account_id=acct, witness_type=wt, network=net)
                 s.handed.append(k)
-                out.append('A=' + fmt_keys([k]))
+                out.append('A=' + fmt_keys([k]) + s.snapshot())
             elif c == 'P':
                 spec, acct, chg, idx, wt, net = f[2], opt_int(f[3]), int(f[4]), int(f[5]), _WT[f[6]], opt_str(f[7])
                 parts = spec.split('.')
@@ -148,51 +233,177 @@ def run(toks):
                     path = []
                 elif parts[0] == 'r':
                     path = [int(x) for x in parts[1:]]
+                elif parts[0] == 's':          # the same relative path written as a string: "0/5"
+                    path = '/'.join(parts[1:])
                 elif parts[0] == 'f':
                     path = '/'.join(x.replace('h', "'") for x in parts[1:])
                 else:
                     return 'BADREQ'
                 k = w.key_for_path(path, account_id=acct, change=chg, address_index=idx, witness_type=wt, network=net)
                 s.handed.append(k)
-                out.append('P=' + fmt_keys([k]))
+                out.append('P=' + fmt_keys([k]) + s.snapshot())
             elif c == 'B':      # keys_for_path([], ..., number_of_keys=n): explicit bulk creation
                 acct, chg, idx, wt, net, n = opt_int(f[2]), int(f[3]), int(f[4]), _WT[f[5]], opt_str(f[6]), int(f[7])
                 ks = w.keys_for_path([], account_id=acct, change=chg, address_index=idx, witness_type=wt, network=net,
                                      number_of_keys=n)
                 s.handed += ks
-                out.append('B=' + fmt_keys(ks))
+                out.append('B=' + fmt_keys(ks) + s.snapshot())
+            elif c == 'S':      # Wallet.scan() with providers that report nothing: creates the gap-limit keys
+                gap, acct, chg, net = int(f[2]), opt_int(f[3]), opt_int(f[4]), opt_str(f[5])
+                w.scan(scan_gap_limit=gap, account_id=acct, change=chg, network=net)
+                out.append('S=ok' + s.snapshot())
             elif c == 'U':
                 lv = leaves(w)
+                if not lv:
+                    raise ValueError('no keys yet')
                 k = lv[int(f[2]) % len(lv)]
                 # utxo_add() files the transaction under account 0 whatever the key's account is (and the balance
                 # update then rewrites DbKey.account_id); the explicit form keeps the key where it is
                 w.utxos_update(account_id=k.account_id, networks=k.network_name,
                                utxos=[{'address': k.address, 'script': '', 'confirmations': 1, 'output_n': 0,
                                        'txid': '%064x' % (int(f[2]) + 1), 'value': 100000}])
-                out.append('U=%d' % k.id)
+                out.append('U=%d' % k.id + s.snapshot())
             elif c == 'R':
                 name, uri = s.name, s.uri
                 s.handed = []
                 s.w = None
                 del w
-                s.w = Wallet(name, db_uri=uri)
-                out.append('R=ok')
+                if len(f) > 2 and f[2] == 'o':      # "create or open" of an existing wallet opens it
+                    s.w = wallet_create_or_open(name, db_uri=uri)
+                else:
+                    s.w = Wallet(name, db_uri=uri)
+                out.append('R=ok' + s.snapshot())
             elif c == 'M':      # Wallet.public_master() (returns key.public(): mutates the cached WalletKey)
                 k = w.public_master(account_id=opt_int(f[2]), witness_type=_WT[f[3]], network=opt_str(f[4]))
                 s.handed.append(k)
-                out.append('M=%s|%s' % (k.path, k.wif))
+                out.append('M=%s|%s' % (k.path, k.wif) + s.snapshot())
             elif c == 'X':      # WalletKey.public() on a key handed out by Wallet.key()
                 lv = leaves(w)
                 k = w.key(lv[int(f[2]) % len(lv)].id)
                 p = k.public()
                 s.handed.append(p)
                 out.append('X=%s|%s' % (p.path, p.address))
+            elif c == 'L':      # the listing functions: ids of the rows they return
+                how, acct, chg, depth, used, wt, net = f[2], opt_int(f[3]), opt_int(f[4]), opt_int(f[5]), \
+                    opt_bool(f[6]), _WT[f[7]], opt_str(f[8])
+                if how == 'k':
+                    rows = w.keys(account_id=acct, change=chg, depth=depth, used=used, witness_type=wt, network=net)
+                    res = [str(r.id) for r in rows]
+                elif how == 'a':        # witness_type is not an argument of the wrappers
+                    rows = w.keys_addresses(account_id=acct, used=used, change=chg, network=net, depth=depth)
+                    res = [str(r.id) for r in rows]
+                elif how == 'p':
+                    rows = w.keys_address_payment(account_id=acct, used=used, network=net)
+                    res = [str(r.id) for r in rows]
+                elif how == 'c':
+                    rows = w.keys_address_change(account_id=acct, used=used, network=net)
+                    res = [str(r.id) for r in rows]
+                elif how == 'l':
+                    res = w.addresslist(account_id=acct, used=used, network=net, change=chg, depth=depth)
+                else:
+                    return 'BADREQ'
+                out.append('L=' + (';'.join(res) if res else '-'))
             elif c == 'D':
                 out.append('D=' + ','.join(fmt_db(k) for k in w.keys()))
             else:
                 return 'BADREQ'
         except (WalletError, BKeyError, ValueError) as e:
-            out.append(c + '=ERR')
+            out.append(c + '=ERR' + (s.snapshot() if (s is not None and s.w is not None and c not in 'XLD') else ''))
+        except Exception as e:
+            out.append(c + '=CRASH:' + type(e).__name__)
+    for s in slots.values():
+        try:
+            s.w.session.close()
+        except Exception:
+            pass
+    return ' '.join(out)
+
+
+def cosigner_seed(seed, i):
+    """seed of cosigner i of a multisig scenario (the oracle derives the same)"""
+    import hashlib, hmac
+    return hmac.new(b'c09 cosigner', seed + bytes([i]), hashlib.sha512).digest()[:32]
+
+
+def fmt_ms(k):
+    """a handed-out multisig WalletKey"""
+    return '%s|%s|%s|%s|%s|%s' % (k.path, k.address, k.address_index, k.change, k.account_id, k.cosigner_id)
+
+
+def fmt_ms_row(r):
+    return '/'.join(str(x) for x in (r.id, r.path.replace('/', '.'), r.address, r.address_index, r.change, r.account_id,
+                                     r.cosigner_id, _WTL.get(r.witness_type, '?'), r.network_name, int(bool(r.used)),
+                                     r.depth, r.key_type, r.purpose))
+
+
+def msrun(toks):
+    """multisig cosigner wallet histories (probe: judged by the independent oracle only).
+    msrun <seedhex> C:<slot>:<net>:<wt>:<n>:<m>:<own>  then K / G / P / U / R / D on the slot"""
+    seed = bytes.fromhex(toks[1])
+    slots, out = {}, []
+    uid = next(_counter)
+    for cmd in toks[2:]:
+        f = cmd.split(':')
+        c = f[0]
+        s = None
+        try:
+            if c == 'C':
+                slot, net, wt, n, m, own = f[1], f[2], _WT[f[3]], int(f[4]), int(f[5]), int(f[6])
+                keys = []
+                for i in range(n):
+                    k = HDKey.from_seed(cosigner_seed(seed, i), network=net, witness_type=wt, multisig=True)
+                    keys.append(k if i == own else k.public_master_multisig(witness_type=wt))
+                name = 'ms%d_%s' % (uid, slot)
+                uri = 'sqlite:///' + os.path.join(os.getcwd(), 'c09_%s_%d.sqlite' % (name, os.getpid()))
+                w = Wallet.create(name, keys=keys, sigs_required=m, network=net, witness_type=wt, db_uri=uri)
+                s = slots[slot] = Slot(w, name, uri)
+                out.append('C=%d' % w.cosigner_id + '~' + ';'.join(fmt_ms_row(r) for r in w.keys()))
+                continue
+            if f[1] not in slots:
+                out.append(c + '=NOSLOT')
+                continue
+            s = slots[f[1]]
+            w = s.w
+            if c == 'K':
+                chg, cos, n = int(f[2]), opt_int(f[3]), int(f[4])
+                if n == 1:
+                    ks = [w.new_key(change=chg, cosigner_id=cos)]
+                else:
+                    ks = w.new_keys(change=chg, cosigner_id=cos, number_of_keys=n)
+                res = 'K=' + ','.join(fmt_ms(k) for k in ks)
+            elif c == 'G':
+                chg, n = int(f[2]), int(f[3])
+                if n == 1:
+                    ks = [w.get_key(change=chg)]
+                else:
+                    ks = w.get_keys(change=chg, number_of_keys=n)
+                res = 'G=' + ','.join(fmt_ms(k) for k in ks)
+            elif c == 'P':
+                k = w.key_for_path([int(f[2]), int(f[3])])
+                res = 'P=' + fmt_ms(k)
+            elif c == 'U':
+                lv = [k for k in w.keys() if k.key_type == 'multisig']
+                if not lv:
+                    raise ValueError('no keys yet')
+                k = lv[int(f[2]) % len(lv)]
+                w.utxos_update(account_id=k.account_id, networks=k.network_name,
+                               utxos=[{'address': k.address, 'script': '', 'confirmations': 1, 'output_n': 0,
+                                       'txid': '%064x' % (int(f[2]) + 1), 'value': 100000}])
+                res = 'U=%d' % k.id
+            elif c == 'R':
+                name, uri = s.name, s.uri
+                s.w = None
+                del w
+                s.w = Wallet(name, db_uri=uri)
+                res = 'R=ok'
+            else:
+                return 'BADREQ'
+            out.append(res + '~' + ';'.join(fmt_ms_row(r) for r in s.w.keys()))
+        except (WalletError, BKeyError, ValueError) as e:
+            try:
+                out.append(c + '=ERR' + ('~' + ';'.join(fmt_ms_row(r) for r in s.w.keys()) if s is not None else ''))
+            except Exception as e2:
+                out.append(c + '=CRASH:' + type(e2).__name__)
         except Exception as e:
             out.append(c + '=CRASH:' + type(e).__name__)
     for s in slots.values():
@@ -222,6 +433,8 @@ def dispatch(t):
         return run(t)
     if t[0] == 'expand':
         return expand(t)
+    if t[0] == 'msrun':
+        return msrun(t)
     return 'BADREQ'
 
 
